@@ -292,6 +292,7 @@ package wal
 //@ requires walMetrics(t) && t.currentSegment != nil && t.readOnlySegments != nil && t.ctx != nil && t.segmentSize <= 2147483647
 //@ assume at call newReadWriteSegment#0: result1 == nil ==> as(result0, *readWriteSegment).lastOffset == baseOffset - 1 because "the WAL directory was just removed: the new segment 0 is empty"
 //@ ensures result == nil ==> walInv(t) && t.lastAppendedOffset.v == -1 && t.lastSyncedOffset.v == -1 && t.firstOffset.v == -1
+//@ modifies fields(wal), fields(readWriteSegment), fields(readOnlySegmentsGroup), fields(readOnlySegment), fields(segmentConfig), fields(uint8), ghset(keys, as(t.readOnlySegments, *readOnlySegmentsGroup).allSegments), ghset(keys, as(t.readOnlySegments, *readOnlySegmentsGroup).openSegments)
 
 //@ func wal.trim
 //@ property C09
@@ -307,7 +308,8 @@ package wal
 //@ func wal.TruncateLog(t, lastSafeOffset) (res, err)
 //@ property C09
 //@ requires walInv(t) && lastSafeOffset >= -1
-//@ loop 0 modifies fields(readOnlySegmentsGroup), fields(readOnlySegment), fields(readWriteSegment)
+//@ loop 0 modifies fields(readOnlySegmentsGroup), fields(readOnlySegment), fields(readWriteSegment), ghset(keys, as(t.readOnlySegments, *readOnlySegmentsGroup).allSegments), ghset(keys, as(t.readOnlySegments, *readOnlySegmentsGroup).openSegments)
+//@ loop 0 invariant t.readOnlySegments == old(t.readOnlySegments) && as(t.readOnlySegments, *readOnlySegmentsGroup).allSegments == old(as(t.readOnlySegments, *readOnlySegmentsGroup).allSegments) && as(t.readOnlySegments, *readOnlySegmentsGroup).openSegments == old(as(t.readOnlySegments, *readOnlySegmentsGroup).openSegments)
 //@ ensures err == nil ==> res == t.lastAppendedOffset.v && res == t.lastSyncedOffset.v
 //@ ensures err == nil ==> res == -1 || res == lastSafeOffset
 //@ ensures err == nil && old(t.lastAppendedOffset.v) != -1 ==> walInv(t)
